@@ -145,6 +145,47 @@ theorem extract_split {α : Type} : ∀ (l : List α) (i : Nat) (m : α) (r : Li
         obtain ⟨a, b', h1, h2⟩ := ih n b l' hx
         exact ⟨x :: a, b', by simp [h1], by simp [h2]⟩
 
+/-- `extract i` removes the element at position `i`: the prefix is `l.take i` -/
+theorem extract_split_take {α : Type} : ∀ (l : List α) (i : Nat) (m : α) (r : List α), extract i l = some (m, r) →
+    ∃ b, l = l.take i ++ m :: b ∧ r = l.take i ++ b := by
+  intro l
+  induction l with
+  | nil => intro i m r h; cases i <;> simp [extract] at h
+  | cons x l ih =>
+    intro i m r h
+    cases i with
+    | zero =>
+      simp [extract] at h
+      obtain ⟨rfl, rfl⟩ := h
+      exact ⟨l, by simp, by simp⟩
+    | succ n =>
+      simp only [extract] at h
+      cases hx : extract n l with
+      | none => simp [hx] at h
+      | some br =>
+        obtain ⟨b, l'⟩ := br
+        simp [hx] at h
+        obtain ⟨rfl, rfl⟩ := h
+        obtain ⟨b', h1, h2⟩ := ih n b l' hx
+        refine ⟨b', ?_, ?_⟩
+        · simp only [List.take_succ_cons, List.cons_append]; rw [← h1]
+        · simp only [List.take_succ_cons, List.cons_append]; rw [← h2]
+
+/-- taking out an element that is the first with its key leaves, among the elements with that key, exactly the tail -/
+theorem extract_first_of_key {α : Type} (key : α → Nat) (l : List α) (i : Nat) (m : α) (r : List α) (h : extract i l = some (m, r))
+    (hfirst : (l.take i).all (fun y => key y != key m) = true) :
+    l.filter (fun y => key y == key m) = m :: r.filter (fun y => key y == key m) := by
+  obtain ⟨b, h1, h2⟩ := extract_split_take l i m r h
+  have h0 : (l.take i).filter (fun y => key y == key m) = [] := by
+    apply List.filter_eq_nil_iff.mpr
+    intro y hy
+    have := List.all_eq_true.mp hfirst y hy
+    simpa using this
+  rw [h2, List.filter_append, h0]
+  conv => lhs; rw [h1]
+  rw [List.filter_append, h0]
+  simp
+
 theorem closeMsgs_append (t : Nat) (a b : List Pending) : closeMsgs t (a ++ b) = closeMsgs t a ++ closeMsgs t b := by
   induction a with
   | nil => rfl
